@@ -298,4 +298,242 @@ theorem metaRun_induction (p : MetaParams ℝ) (P : MetaTrace ℝ → Prop)
     rw [metaRun_cons]
     exact metaRun_induction p P hstep rest _ (hstep t c xs ht)
 
+section
+open Cv.C15
+
+theorem expandGrids_off (p : MetaParams ℝ) (s : MetaState ℝ) (xs : List ℝ)
+    (h : p.useGrids = false ∨ p.expand.any id = false) : expandGrids p s xs = s := by
+  unfold expandGrids
+  rcases h with h | h <;> simp [h]
+
+theorem gridTime_off (p : MetaParams ℝ) (c : Clock) (h : p.useGrids = false) : gridTime p c = false := by
+  simp [gridTime, h]
+
+theorem newHills_snoc (s s' : MetaState ℝ) (h : Hill ℝ) (hh : s'.hills = s.hills ++ [h])
+    (hn : s'.nNew = s.nNew + 1) : newHills s' = newHills s ++ [h] := by
+  unfold newHills
+  rw [hh, hn, List.length_append, List.length_singleton,
+    show s.hills.length + 1 - (s.nNew + 1) = s.hills.length - s.nNew by omega,
+    List.drop_append_of_le_length (by omega)]
+
+theorem newHills_all (s : MetaState ℝ) (h : s.nNew = s.hills.length) : newHills s = s.hills := by
+  unfold newHills
+  rw [h, Nat.sub_self, List.drop_zero]
+
+theorem newHills_none (s : MetaState ℝ) (h : s.nNew = 0) : newHills s = [] := by
+  unfold newHills
+  rw [h, Nat.sub_zero, List.drop_length]
+
+/-! ### afterDeposit -/
+
+theorem afterDeposit_g (p : MetaParams ℝ) (c : Clock) (s : MetaState ℝ) (xs : List ℝ) :
+    (afterDeposit p c s xs).g = s.g := by
+  unfold afterDeposit; split_ifs <;> rfl
+
+theorem afterDeposit_gridE (p : MetaParams ℝ) (c : Clock) (s : MetaState ℝ) (xs : List ℝ) :
+    (afterDeposit p c s xs).gridE = s.gridE := by
+  unfold afterDeposit; split_ifs <;> rfl
+
+theorem afterDeposit_hills (p : MetaParams ℝ) (c : Clock) (s : MetaState ℝ) (xs : List ℝ) :
+    (afterDeposit p c s xs).hills = if depositNow p c then s.hills ++ [newHill p c s xs] else s.hills := by
+  unfold afterDeposit; split_ifs <;> rfl
+
+theorem afterDeposit_nNew (p : MetaParams ℝ) (c : Clock) (s : MetaState ℝ) (xs : List ℝ) :
+    (afterDeposit p c s xs).nNew = if depositNow p c then s.nNew + 1 else s.nNew := by
+  unfold afterDeposit; split_ifs <;> rfl
+
+theorem afterDeposit_newHills (p : MetaParams ℝ) (c : Clock) (s : MetaState ℝ) (xs : List ℝ) :
+    newHills (afterDeposit p c s xs) =
+      if depositNow p c then newHills s ++ [newHill p c s xs] else newHills s := by
+  by_cases hd : depositNow p c = true
+  · rw [if_pos hd]
+    apply newHills_snoc
+    · rw [afterDeposit_hills, if_pos hd]
+    · rw [afterDeposit_nNew, if_pos hd]
+  · rw [if_neg hd]
+    unfold afterDeposit
+    rw [if_neg hd]
+
+/-! ### afterGrid -/
+
+theorem afterGrid_off (p : MetaParams ℝ) (c : Clock) (s : MetaState ℝ) (h : gridTime p c = false) :
+    afterGrid p c s = s := by
+  unfold afterGrid; simp [h]
+
+theorem afterGrid_g (p : MetaParams ℝ) (c : Clock) (s : MetaState ℝ) : (afterGrid p c s).g = s.g := by
+  unfold afterGrid; split_ifs <;> rfl
+
+theorem afterGrid_on_gridE (p : MetaParams ℝ) (c : Clock) (s : MetaState ℝ) (h : gridTime p c = true) :
+    (afterGrid p c s).gridE = (projectHills p s (newHills s)).gridE := by
+  unfold afterGrid; rw [if_pos h]
+
+theorem afterGrid_on_nNew (p : MetaParams ℝ) (c : Clock) (s : MetaState ℝ) (h : gridTime p c = true) :
+    (afterGrid p c s).nNew = 0 := by
+  unfold afterGrid; rw [if_pos h]
+
+theorem afterGrid_hills (p : MetaParams ℝ) (c : Clock) (s : MetaState ℝ)
+    (h : p.keepHills = true ∨ p.useGrids = false) : (afterGrid p c s).hills = s.hills := by
+  unfold afterGrid
+  by_cases hg : gridTime p c = true
+  · rw [if_pos hg]
+    rcases h with h | h
+    · simp [h]
+    · rw [gridTime_off p c h] at hg; exact absurd hg (by simp)
+  · rw [if_neg hg]
+
+/-! ### the combined invariant -/
+
+/-- grid contents = tabulated hills at the bin centres; untabulated hills = the tail of the deposited hills -/
+structure FullInv (p : MetaParams ℝ) (s : MetaState ℝ) (dep proj : List (Hill ℝ)) : Prop where
+  pos : ∀ n ∈ s.g.nx, 0 < n
+  ne : s.g.nx ≠ []
+  len : (s.gridE.length : Int) = ntOf 1 s.g.nx
+  grid : ∀ ix, indexOk s.g.nx ix = true →
+    s.gridE.getD (address 1 s.g.nx ix).toNat 0 = hillsEnergy p proj (binCenters s.g ix)
+  new : newHills s = dep.drop proj.length
+  le : proj.length ≤ dep.length
+  pre : proj = dep.take proj.length
+
+theorem FullInv.deposit {p : MetaParams ℝ} {s : MetaState ℝ} {dep proj : List (Hill ℝ)}
+    (I : FullInv p s dep proj) (c : Clock) (xs : List ℝ) :
+    FullInv p (afterDeposit p c s xs)
+      (if depositNow p c then dep ++ [newHill p c s xs] else dep) proj := by
+  refine ⟨?_, ?_, ?_, ?_, ?_, ?_, ?_⟩
+  · rw [afterDeposit_g]; exact I.pos
+  · rw [afterDeposit_g]; exact I.ne
+  · rw [afterDeposit_g, afterDeposit_gridE]; exact I.len
+  · rw [afterDeposit_g, afterDeposit_gridE]; exact I.grid
+  · rw [afterDeposit_newHills]
+    split_ifs
+    · rw [List.drop_append_of_le_length I.le, I.new]
+    · exact I.new
+  · split_ifs
+    · rw [List.length_append]; have := I.le; omega
+    · exact I.le
+  · split_ifs
+    · rw [List.take_append_of_le_length I.le]; exact I.pre
+    · exact I.pre
+
+theorem FullInv.tabulate {p : MetaParams ℝ} {s : MetaState ℝ} {dep proj : List (Hill ℝ)}
+    (I : FullInv p s dep proj) (c : Clock) :
+    FullInv p (afterGrid p c s) dep (if gridTime p c then dep else proj) := by
+  by_cases hg : gridTime p c = true
+  · rw [if_pos hg]
+    refine ⟨?_, ?_, ?_, ?_, ?_, le_refl _, ?_⟩
+    · rw [afterGrid_g]; exact I.pos
+    · rw [afterGrid_g]; exact I.ne
+    · rw [afterGrid_g, afterGrid_on_gridE p c s hg]
+      exact projectHills_gridE_length p s _ I.pos I.ne I.len
+    · intro ix hok
+      rw [afterGrid_g] at hok ⊢
+      rw [afterGrid_on_gridE p c s hg, project_adds' p s _ ix I.pos I.ne I.len hok, I.grid ix hok,
+        ← hillsEnergy_append, I.new]
+      have e : proj ++ dep.drop proj.length = dep := by
+        have := List.take_append_drop proj.length dep
+        rwa [← I.pre] at this
+      rw [e]
+    · rw [newHills_none _ (afterGrid_on_nNew p c s hg), List.drop_length]
+    · rw [List.take_length]
+  · rw [if_neg hg, afterGrid_off p c s (by simpa using hg)]
+    exact I
+
+theorem FullInv.step {p : MetaParams ℝ} {t : MetaTrace ℝ} (hex : p.expand.any id = false)
+    (I : FullInv p t.s t.deposited t.projected) (c : Clock) (xs : List ℝ) :
+    FullInv p (stepTrace p t c xs).s (stepTrace p t c xs).deposited (stepTrace p t c xs).projected := by
+  have := (I.deposit c xs).tabulate c
+  simp only [stepTrace, stepDeposited, metaStep_fst, expandGrids_off p t.s xs (Or.inr hex)]
+  exact this
+
+theorem FullInv.run {p : MetaParams ℝ} (hex : p.expand.any id = false) (h : MetaHist ℝ) (t : MetaTrace ℝ)
+    (I : FullInv p t.s t.deposited t.projected) :
+    FullInv p (metaRun p t h).s (metaRun p t h).deposited (metaRun p t h).projected :=
+  metaRun_induction p (fun t => FullInv p t.s t.deposited t.projected)
+    (fun _ c xs I => I.step hex c xs) h t I
+
+/-! ### schedule, no-grid bookkeeping -/
+
+theorem schedule' (p : MetaParams ℝ) (hwt : p.wellTempered = false) : ∀ (h : MetaHist ℝ) (t : MetaTrace ℝ),
+    (metaRun p t h).deposited =
+      t.deposited ++ (h.filter (fun cx => depositNow p cx.1)).map
+        (fun cx => ({ it := cx.1.it, w := p.hillWeight * 1.0, centers := cx.2, sigmas := p.sigmas } : Hill ℝ))
+  | [], t => by simp [metaRun_nil]
+  | (c, xs) :: rest, t => by
+    rw [metaRun_cons, schedule' p hwt rest, List.filter_cons]
+    simp only [stepTrace, stepDeposited, newHill, hwt, Bool.false_eq_true, if_false]
+    split_ifs <;> simp
+
+theorem nogrid_step (p : MetaParams ℝ) (hg : p.useGrids = false) (t : MetaTrace ℝ) (c : Clock) (xs : List ℝ)
+    (h0 : t.s.hills = t.deposited ∧ t.s.nNew = t.deposited.length) :
+    (stepTrace p t c xs).s.hills = (stepTrace p t c xs).deposited ∧
+      (stepTrace p t c xs).s.nNew = (stepTrace p t c xs).deposited.length := by
+  simp only [stepTrace, stepDeposited, metaStep_fst, expandGrids_off p t.s xs (Or.inl hg),
+    afterGrid_off _ _ _ (gridTime_off p c hg), afterDeposit_hills, afterDeposit_nNew]
+  split_ifs
+  · simp [h0.1, h0.2]
+  · exact h0
+
+end
+
+/-! ## energy, force, well-tempered height -/
+section
+open Cv.C15
+
+theorem metaEnergy_grid (p : MetaParams ℝ) (s : MetaState ℝ) (xs : List ℝ) (hg : p.useGrids = true) :
+    metaEnergy p s xs =
+      if indexOk s.g.nx (binsOf s.g xs) = true then
+        s.gridE.getD (address 1 s.g.nx (binsOf s.g xs)).toNat 0 + hillsEnergy p (newHills s) xs
+      else hillsEnergy p s.offGrid xs := by
+  unfold metaEnergy
+  simp only [hg, if_true, Bool.true_and, zero_lit]
+  by_cases h : indexOk s.g.nx (binsOf s.g xs) = true
+  · simp only [h, if_true, Bool.not_true, Bool.false_eq_true, if_false]
+    exact hillsEnergy_foldl p _ xs _
+  · simp [h]
+
+theorem metaEnergy_nogrid (p : MetaParams ℝ) (s : MetaState ℝ) (xs : List ℝ) (hg : p.useGrids = false) :
+    metaEnergy p s xs = hillsEnergy p (newHills s) xs := by
+  unfold metaEnergy
+  simp only [hg, Bool.false_and, Bool.false_eq_true, if_false]
+  rfl
+
+theorem metaForce_nogrid (p : MetaParams ℝ) (s : MetaState ℝ) (xs : List ℝ) (i : Nat) (hg : p.useGrids = false) :
+    metaForce p s xs i = hillsForce p (newHills s) xs i := by
+  unfold metaForce
+  simp only [hg, Bool.false_and, Bool.false_eq_true, if_false]
+  rfl
+
+theorem energy_nogrid' (p : MetaParams ℝ) (c : Clock) (s : MetaState ℝ) (xs : List ℝ) (hg : p.useGrids = false)
+    (h0 : s.nNew = s.hills.length) :
+    (metaStep p c s xs).2.1 = hillsEnergy p (metaStep p c s xs).1.hills xs ∧
+    (metaStep p c s xs).2.2 = (List.range xs.length).map (hillsForce p (metaStep p c s xs).1.hills xs) := by
+  have hall : newHills (metaStep p c s xs).1 = (metaStep p c s xs).1.hills := by
+    apply newHills_all
+    rw [metaStep_fst, expandGrids_off p s xs (Or.inl hg), afterGrid_off _ _ _ (gridTime_off p c hg),
+      afterDeposit_hills, afterDeposit_nNew]
+    split_ifs
+    · rw [List.length_append, List.length_singleton, h0]
+    · exact h0
+  rw [metaStep_snd]
+  refine ⟨?_, ?_⟩
+  · show metaEnergy p (metaStep p c s xs).1 xs = _
+    rw [metaEnergy_nogrid p _ xs hg, hall]
+  · show (List.range xs.length).map (metaForce p (metaStep p c s xs).1 xs) = _
+    apply List.map_congr_left
+    intro i _
+    rw [metaForce_nogrid p _ xs i hg, hall]
+
+theorem wt_height' (p : MetaParams ℝ) (c : Clock) (s : MetaState ℝ) (xs : List ℝ) (hd : depositNow p c = true)
+    (hwt : p.wellTempered = true) :
+    ∃ hl : Hill ℝ, (p.keepHills = true ∨ p.useGrids = false → hl ∈ (metaStep p c s xs).1.hills) ∧
+      hl.centers = xs ∧ hl.sigmas = p.sigmas ∧
+      hl.w = p.hillWeight * Real.exp (- wtEnergyHere p (expandGrids p s xs) xs / p.biasTempKB) := by
+  refine ⟨newHill p c (expandGrids p s xs) xs, ?_, rfl, rfl, ?_⟩
+  · intro hk
+    rw [metaStep_fst, afterGrid_hills p c _ hk, afterDeposit_hills, if_pos hd]
+    simp
+  · simp only [newHill, hwt, if_true, prim_exp, one_lit]
+    rw [one_mul, neg_one_mul]
+
+end
+
 end Cv.C05
